@@ -958,6 +958,31 @@ def run_check(pid, tier, seed):
     return 1 if unknown else 0
 
 
+def rule_text(results):
+    kinds = {r['engine'].split(':')[0] for r in results}
+    parts = []
+    if kinds & {'lat', 'api'}:
+        parts.append('lattice/API engines: TLC explores each configuration exhaustively (all worlds / problems / sample sequences / call '
+                     'histories / fault schedules within the stated bounds); every history it emits is executed on the real planner over a '
+                     'lattice space and the recorded trace is validated event by event by spec/TraceMonitor.tla. evaluations = histories '
+                     'executed; distinct_nontrivial = distinct (world, problem, final planner snapshot) triples the real planner reached '
+                     '(counted by the harness).')
+    if 'real' in kinds:
+        parts.append('real engine: generated worlds on the six real spaces, two parameter sets per (scenario, planner), two same-seed '
+                     'instances; each run counts as one evaluation and one distinct case (scenario x planner x parameter set).')
+    if 'spaces' in kinds:
+        parts.append('spaces engine: every lattice case (and its ulp / 2 pi / sign / scale representatives) of every space function is one '
+                     'evaluation = one monitor state; distinct_nontrivial counts the distinct (space, operation) classes; the expected value '
+                     'of each case is recomputed by TLC from the exact model of spec/Spaces.tla.')
+    if 'py' in kinds:
+        parts.append('python engine: programs = scenarios run through the Python API (mirror scenarios also through the Rust core, fault '
+                     'scenarios twice: failing callback and return-False twin); disagreements_checked = callback records compared; '
+                     'distinct_nontrivial = distinct scenarios.')
+    if 'ind' in kinds:
+        parts.append('ind:star: base case and inductive step of spec/StarInd.tla discharged by Apalache (and the <= variant refuted).')
+    return ' '.join(parts)
+
+
 def write_evidence(pid, tier, seed, spec, results, counts, nviol, wall, known_hit):
     from tolerances import TOLERANCES
     cov = {
@@ -969,10 +994,7 @@ def write_evidence(pid, tier, seed, spec, results, counts, nviol, wall, known_hi
         'exhaustive': True,
         'evaluations': sum(r.get('traces', 0) for r in results),
         'distinct_nontrivial': sum(c.get('distinct_final_snapshots', 0) for r in results for c in r.get('configs', [])),
-        'rule': 'distinct_nontrivial = number of distinct (world, problem, final planner snapshot) triples the real planner '
-                'reached, counted by the harness; evaluations = histories executed. TLC explores each configuration exhaustively (all worlds / problems / sample sequences / call histories within '
-                'the stated bounds); every history it emits is executed on the real planner over a lattice space and the '
-                'recorded trace is validated event by event by spec/TraceMonitor.tla',
+        'rule': rule_text(results),
         'engines': [{'engine': r['engine'], 'configs': r.get('configs', []), 'witnesses': r.get('witnesses', []), 'liveness': r.get('liveness'),
                      'wall_s': r.get('wall_s'), 'cached_result_for_same_tree': r.get('engine_cached', False)} for r in results],
         'labels_of_this_property_raised': counts,
@@ -992,6 +1014,7 @@ def write_evidence(pid, tier, seed, spec, results, counts, nviol, wall, known_hi
             'hooks under cfg(oxmpl_verif) are add-only; the monitor cross-checks them against end-of-call snapshots (C15/snapshot, C18/snapshot)',
         ] + TOLERANCES,
         'wall_s': round(wall, 1), 'violations': nviol,
+        'engine_wall_s_total': round(sum((r.get('wall_s') or 0) for r in results), 1),
     }
     os.makedirs(os.path.join(ROOT, 'evidence'), exist_ok=True)
     json.dump(ev, open(os.path.join(ROOT, 'evidence', pid + '.json'), 'w'), indent=1)
